@@ -15,6 +15,7 @@
 From Coq Require Import String.
 From Ldlm Require Import Model.Base Model.Err Model.Seq Model.Track Model.Rest Proofs.RestDefs.
 From Ldlm Require Proofs.RestSeq1 Proofs.RestSeq3 Proofs.RestFine.
+From Ldlm Require Import Proofs.RestExamples.
 Local Open Scope Z_scope.
 
 (** ** Sequential layer *)
@@ -133,58 +134,25 @@ Theorem C20_mutex : ∀ pool sch t c p, pool_ok pool →
 Proof. exact RestFine.C20_mutex. Qed.
 Print Assumptions C20_mutex.
 
-(** ** Non-vacuity *)
+(** ** Non-vacuity (the runs are computed once in Proofs/RestExamples.v) *)
 
 (** Sequential: a history with a lease, a request at gap timeout-1ns (accepted), an idle gap of exactly the timeout
-    (expired, ConnEnd within the advance), a request with the expired cookie (401), an unknown cookie (401). *)
-Definition ex_cfg : config := Config false false 1800000000000 300000000000 600000000000.
-Definition ex_tmo : Z := 2000000000.
-Definition ex_h : list revent :=
-  [RCreate [x63] [x73]; RRequest (Some [x63]) (QTry [x61] None (Some 9) [x6b]); RAdvance 1999999999;
-   RRequest (Some [x63]) (QRenew [x61] [x6b] 9); RAdvance 2000000000;
-   RRequest (Some [x63]) (QUnlock [x61] [x6b]); RRequest (Some [x7a]) (QUnlock [x61] [x6b]); RRequest None (QNoop 404)].
-
+    (expired, ConnEnd within the advance), then the expired cookie, an unknown cookie and no cookie (401 each): its one run
+    produces [ex20_os], ends with an empty table at instant 3999999999, and the gap rule's live set is empty as well. *)
 Example C20_seq_nonvacuous :
-  0 < ex_tmo ∧
-  ∃ st, rruns ex_cfg ex_tmo (rinit ex_cfg) ex_h =
-    [(st, [[ROStatus 201]; [ROStatus 200; ROSeq (OResp (RLock true [x6b] None))]; [];
-           [ROStatus 200; ROSeq (OResp (RLock true [x6b] None))]; [ROEnd [x73]];
-           [ROStatus 401]; [ROStatus 401]; [ROStatus 401]])] ∧
-    map_to_list (r_table st) = [] ∧ map_to_list (gp_live (gap_run ex_tmo ex_h)) = [] ∧ r_now st = 3999999999.
-Proof. split; [reflexivity|]. eexists. split; [vm_compute; reflexivity|]. split; [|split]; by vm_compute. Qed.
+  0 < ex20_tmo ∧
+  map rview (rruns ex20_cfg ex20_tmo (rinit ex20_cfg) ex20_h) = [([], 3999999999, ex20_os)] ∧
+  map_to_list (gp_live (gap_run ex20_tmo ex20_h)) = [].
+Proof. exact RestExamples.c20_seq_nonvacuous. Qed.
 
-(** Fine-grained: POST /session, a request, the idle timer firing while a second request and a DELETE are under way:
-    a finished run in which the session ended — with exactly one ConnEnd; the pool satisfies [pool_ok]. *)
-Definition ex_pool : gmap thr (positive * pc) :=
-  {[ TUser 1 := (1%positive, K0); TUser 2 := (1%positive, Q0); TUser 3 := (1%positive, D0); TUser 4 := (1%positive, Q0) ]}.
-Definition ex_sch : list sitem :=
-  (* create *) [SRun (TUser 1); SRun (TUser 1); SRun (TUser 1); SRun (TUser 1)] ++
-  (* request 2 up to serving *) [SRun (TUser 2); SRun (TUser 2); SRun (TUser 2); SRun (TUser 2); SRun (TUser 2)] ++
-  (* the timer fires; its function takes the table mutex, deletes the entry, waits for the session mutex *)
-  [SFire 1; SRun (TCb 1); SRun (TCb 1); SRun (TCb 1); SRun (TCb 1)] ++
-  (* DELETE and request 4 are blocked on the table mutex; request 2 finishes; the callback delivers ConnEnd *)
-  [SRun (TUser 3); SRun (TUser 4); SRun (TUser 2); SRun (TUser 2);
-   SRun (TCb 1); SRun (TCb 1); SRun (TCb 1); SRun (TCb 1); SRun (TCb 1)] ++
-  (* DELETE finds nothing (409), request 4 is refused (401) *)
-  [SRun (TUser 3); SRun (TUser 3); SRun (TUser 3); SRun (TUser 4); SRun (TUser 4); SRun (TUser 4)].
-
+(** Fine-grained: POST /session, a request, the idle timer firing while it is served, a DELETE and a second request
+    queued behind the table mutex: the pool satisfies [pool_ok]; the run is finished (201, 200, 401, 409, callback done);
+    the session was created, is no longer in the table, got exactly one ConnEnd and served one request. *)
 Example C20_fine_nonvacuous :
-  pool_ok ex_pool ∧
-  let st := frun (finit ex_pool) ex_sch in
-  map_to_list (f_pool st) = [(TUser 1, (1%positive, Done (Some R201))); (TUser 2, (1%positive, Done (Some R200)));
-                             (TUser 4, (1%positive, Done (Some R401))); (TUser 3, (1%positive, Done (Some R409)));
-                             (TCb 1, (1%positive, Done None))] ∧
-  fs_created (sess st 1) = true ∧ fs_entry (sess st 1) = false ∧ fs_connend (sess st 1) = 1%nat ∧ fs_served (sess st 1) = 1%nat.
-Proof.
-  split.
-  - split.
-    + intros t c p H. unfold ex_pool in H.
-      repeat (apply lookup_insert_Some in H as [[<- H]|[_ H]]; [inversion H; subst; split; [reflexivity|eexists; reflexivity]|]).
-      apply lookup_singleton_Some in H as [<- H]. inversion H; subst. split; [reflexivity|eexists; reflexivity].
-    + intros t1 t2 c H1 H2. unfold ex_pool in H1, H2.
-      repeat (apply lookup_insert_Some in H1 as [[<- H1]|[_ H1]]; [|]);
-      try (apply lookup_singleton_Some in H1 as [<- H1]); try discriminate H1;
-      repeat (apply lookup_insert_Some in H2 as [[<- H2]|[_ H2]]; [|]);
-      try (apply lookup_singleton_Some in H2 as [<- H2]); try discriminate H2; try reflexivity.
-  - vm_compute. repeat split.
-Qed.
+  pool_ok ex20_pool ∧
+  fview (frun (finit ex20_pool) ex20_sch) 1 =
+    ([(TUser 1, (1%positive, Done (Some R201))); (TUser 2, (1%positive, Done (Some R200)));
+      (TUser 4, (1%positive, Done (Some R401))); (TUser 3, (1%positive, Done (Some R409)));
+      (TCb 1, (1%positive, Done None))],
+     (true, false, 1%nat, 1%nat)).
+Proof. exact RestExamples.c20_fine_nonvacuous. Qed.
